@@ -165,6 +165,12 @@ def run(ch, config, res):
                 n = n + "x"
             names.append(n)
     fs = FiltersSet("test", name_pre, desc_pre)
+    with ch.scope("run"):
+        # one Parser object for every load of the run (instead of a fresh one each time); markers given to the loading
+        # set through its public attributes (instead of the constructor)
+        from sievelib.parser import Parser
+        shared_parser = Parser() if wl.flag("shared_parser", 1, 3) else None
+        by_attr = wl.flag("markers_by_attribute", 1, 4)
     model = []
     failure = None
     kinds = set()
@@ -279,7 +285,18 @@ def run(ch, config, res):
                     res.count("restarts_e2e")
                 else:
                     res.count("restarts_local")
-                fs2, err = E.load_text(loaded_text, "test", name_pre, desc_pre)
+                if shared_parser is not None and wl.flag("poison", 1, 2):
+                    # the Parser that will load the script has just been through something else: a script that fails after
+                    # a comment carrying the description marker, or one that ends with comments nobody owns
+                    junk = ["%sleft over from another script\nif header :is \"a\" { keep; }\n" % desc_pre,
+                            "keep;\n%sorphan name\n%sorphan description\n" % (name_pre, desc_pre),
+                            "# just a comment\nstop\n"][wl.int("junk", 3)]
+                    try:
+                        shared_parser.parse(junk)
+                    except Exception:
+                        pass
+                    res.count("poisoned_parsers")
+                fs2, err = E.load_text(loaded_text, "test", name_pre, desc_pre, parser=shared_parser, markers_by_attribute=by_attr)
                 if fs2 is None:
                     # a rendering the parser rejects is C06's business, but it also means the set did not survive
                     failure = Failure(PROP, "C11.tree", "%s: the saved script does not load (%s):\n%s" % (label, err, loaded_text), {})
